@@ -1,13 +1,18 @@
 (* C28 — Committed cluster log entries agree on all nodes and never change.
    Pinned statements only; proofs in theories/RaftProofs.v, RaftInv.v; model theories/Raft.v.
 
+   `rv : raftrev` is the revision of the election code (Raft.v; `rr_pinned` before, `rr_fixed` after the two
+   election repairs of C27); the check compares the code with the model of the revision found in the source tree.
+
    FULL STATEMENT: for every cluster size and every event list of the adversary
      (a) the commit index of a node never decreases,
      (b) an entry at an index <= commit of a node is never removed or replaced there,
-     (c) forall size evs, committed_agree (run size evs): no two nodes hold different entries at an index
+     (c) forall size evs, committed_agree (run rv size evs): no two nodes hold different entries at an index
          both have committed.
-   (c) is false of the faithful model (`C28c_refuted*`); `classes h` = (double vote, stale vote counted, ack from
-   diverged log, old-term commit, ack below voted term) are the decidable defect classes of a history. *)
+   (a), (b) are proved for every revision.  (c) is false of the faithful model of EVERY revision (`C28c_refuted*`):
+   the election repairs remove the class `ack below voted term` (and the two election classes) but not the two
+   log-replication defects.  `classes h` = (double vote, stale vote counted, ack from diverged log, old-term
+   commit, ack below voted term) are the decidable defect classes of a history. *)
 From Coq Require Import NArith List.
 From Agdb Require Import Raft RaftWitness RaftProofs RaftInv.
 Import ListNotations.
@@ -16,51 +21,52 @@ Open Scope N_scope.
 (* (a) PROVED for every adversarial event list: the commit index of node i never decreases
    (`run size (evs ++ evs')` is any continuation of `run size evs`).  The degenerate one-node cluster, which
    exchanges no messages, is excluded (`size <> 1`). *)
-Theorem C28a_commit_monotone : forall size evs evs' i,
-  size <> 1 -> commit_of (run size evs) i <= commit_of (run size (evs ++ evs')) i.
+Theorem C28a_commit_monotone : forall rv size evs evs' i,
+  size <> 1 -> commit_of (run rv size evs) i <= commit_of (run rv size (evs ++ evs')) i.
 Proof. exact commit_monotone. Qed.
 Print Assumptions C28a_commit_monotone.
 
 (* (b) PROVED for every adversarial event list: an entry held at a committed index of node i is still there,
    unchanged, after any continuation (truncate-on-append never cuts at or below the commit index) *)
-Theorem C28b_committed_stable : forall size evs evs' i idx e,
+Theorem C28b_committed_stable : forall rv size evs evs' i idx e,
   size <> 1 ->
-  idx <= commit_of (run size evs) i ->
-  log_at (logs_of (run size evs) i) idx = Some e ->
-  log_at (logs_of (run size (evs ++ evs')) i) idx = Some e.
+  idx <= commit_of (run rv size evs) i ->
+  log_at (logs_of (run rv size evs) i) idx = Some e ->
+  log_at (logs_of (run rv size (evs ++ evs')) i) idx = Some e.
 Proof. exact committed_stable. Qed.
 Print Assumptions C28b_committed_stable.
 
 (* non-vacuity: a run in which node 0 has committed two entries *)
-Example C28ab_nonvacuous :
-  let c := run w28_ack_diverged_n w28_ack_diverged in
+Example C28ab_nonvacuous : forall rv,
+  let c := run rv w28_ack_diverged_n w28_ack_diverged in
   commit_of c 1 = 2 /\ log_at (logs_of c 1) 2 = Some (mkEntry 2 2 22).
 Proof. exact C28ab_example. Qed.
 Print Assumptions C28ab_nonvacuous.
 
-(* (c) refuted: corpus/C28/ack_diverged.txt, 28 events, 3 nodes *)
-Theorem C28c_refuted : ~ (forall size evs, committed_agree (run size evs)).
+(* (c) refuted, every revision: corpus/C28/ack_diverged.txt, 28 events, 3 nodes *)
+Theorem C28c_refuted : forall rv, ~ (forall size evs, committed_agree (run rv size evs)).
 Proof. exact C28c_refuted. Qed.
 Print Assumptions C28c_refuted.
 
-(* (c) fails in histories with one leader per term in which exactly one defect class occurs — three independent
-   causes.  1: validate_log_append has no previous-entry check *)
-Theorem C28c_refuted_ack_diverged :
-  exists size evs, let c := run size evs in
+(* (c) fails in histories with one leader per term in which exactly one defect class occurs — independent
+   causes.  1 (every revision): validate_log_append has no previous-entry check *)
+Theorem C28c_refuted_ack_diverged : forall rv,
+  exists size evs, let c := run rv size evs in
     election_safety (c_hist c) /\ classes (c_hist c) = (false, false, true, false, false) /\ ~ committed_agree c.
 Proof. exact C28c_refuted_ack_diverged. Qed.
 Print Assumptions C28c_refuted_ack_diverged.
 
-(* 2: the leader commits an entry of an older term by counting replicas *)
-Theorem C28c_refuted_old_term_commit :
-  exists size evs, let c := run size evs in
+(* 2 (every revision): the leader commits an entry of an older term by counting replicas *)
+Theorem C28c_refuted_old_term_commit : forall rv,
+  exists size evs, let c := run rv size evs in
     election_safety (c_hist c) /\ classes (c_hist c) = (false, false, false, true, false) /\ ~ committed_agree c.
 Proof. exact C28c_refuted_old_term_commit. Qed.
 Print Assumptions C28c_refuted_old_term_commit.
 
-(* 3: a voter keeps its old term after voting and still acknowledges the old leader's Append *)
+(* 3 (before the election repairs only; `C27_fixed_no_election_classes` shows the class cannot occur after them):
+   a voter keeps its old term after voting and still acknowledges the old leader's Append *)
 Theorem C28c_refuted_ack_below_vote :
-  exists size evs, let c := run size evs in
+  exists size evs, let c := run rr_pinned size evs in
     election_safety (c_hist c) /\ classes (c_hist c) = (false, false, false, false, true) /\ ~ committed_agree c.
 Proof. exact C28c_refuted_ack_below_vote. Qed.
 Print Assumptions C28c_refuted_ack_below_vote.
